@@ -13,7 +13,11 @@ from collections import Counter
 from hypothesis import strategies as st
 
 from .. import gen
-from ..engine import describe_ops, exc_key, observed_phase, run_case
+import warnings
+
+from pokerkit import Card
+
+from ..engine import Hooks, describe_ops, exc_key, observed_phase, run_case
 from ..runner import V
 
 ID = 'C06'
@@ -60,6 +64,9 @@ class Obs:
         self.flags = set()
         self.nops = 0
         self.unknown_seen = False
+        # True unless the interpreter itself named the cards of the
+        # operation being observed (set by the Named hook)
+        self.engine_chosen = True
 
     def snap(self, s):
         return dict(
@@ -77,6 +84,13 @@ class Obs:
             self.viol.append(V(ID, kind, key, msg))
 
     def __call__(self, s, op):
+        try:
+            self._observe(s, op)
+        finally:
+            # only the first operation of a step can carry named cards
+            self.engine_chosen = True
+
+    def _observe(self, s, op):
         if self.deck is None:
             self.deck = Counter(s.deck)
         self.nops += 1
@@ -152,6 +166,15 @@ class Obs:
                     self.v('dealt_card_was_in_play', name,
                            f'{c!r} {where}')
             from_reserve = [c for c in kn if c not in pdeck]
+            if from_reserve and self.engine_chosen and \
+                    Counter(c for c in pdeck if c) - Counter(kn):
+                # the engine chose these cards itself: the reserve piles
+                # are touched only once the deck has run out
+                left = list((Counter(c for c in pdeck if c)
+                             - Counter(kn)).elements())
+                self.v('reserve_used_before_deck_ran_out', name,
+                       f'{from_reserve} came from burns/muck/discards while'
+                       f' {left} stayed in the deck {where}')
             if from_reserve and len(pdeck) >= k:
                 self.v('reserve_used_with_deck_available', name,
                        f'{from_reserve} came from burns/muck/discards'
@@ -215,6 +238,60 @@ def budget(tier):
     return dict(examples=160000, wall=1500)
 
 
+class Named(Hooks):
+    """Tells the observer whether the interpreter named the cards of the
+    next operation, and probes - on a deep copy - a board deal that mixes
+    known cards and placeholders in one call."""
+
+    def __init__(self, obs, cfg):
+        self.obs = obs
+        self.cfg = cfg
+        self.viol = []
+        self.mixed_probes = 0
+
+    def before(self, it, kind, args):
+        named = any(isinstance(a, (tuple, list, str)) and len(a) > 0
+                    for a in args)
+        self.obs.engine_chosen = not named
+
+    def quiescent(self, it):
+        s = it.state
+        if self.viol or not self.cfg.get('unknown') or not s.status:
+            return
+        if not s.can_deal_board():
+            return
+        k = s.board_dealing_count
+        if not k or k < 2:
+            return
+        cards = list(s.get_dealable_cards(k))[:k - 1]
+        if len(cards) < k - 1:
+            return
+        import copy
+        c = copy.deepcopy(s)
+        mixed = tuple(cards) + (Card.UNKNOWN,)
+        from ..engine import unobserved
+        try:
+            with warnings.catch_warnings(), unobserved():
+                warnings.simplefilter('ignore')
+                c.deal_board(mixed)
+        except (ValueError, UserWarning):
+            return
+        except Exception as e:  # noqa: BLE001
+            from ..engine import is_engine_exception
+            if not is_engine_exception(e):
+                raise
+            return          # a crash in the cascade is C07's business
+        self.mixed_probes += 1
+        allc = places(c)
+        cnt = Counter(x for x in allc if x)
+        dup = [x for x, n in cnt.items() if n > 1]
+        if dup:
+            self.viol.append(V(
+                ID, 'card_duplicated', 'mixed_board_deal',
+                f'deal_board({mixed!r}) after {len(s.operations)}'
+                f' operations: {dup} are in two places'))
+
+
 def _big_drawers(case):
     case['config']['discard_heavy'] = True
     return case
@@ -248,14 +325,16 @@ def check(case, stats):
         cfg['autos'] &= ~(1 << 7)
         case = dict(case, config=cfg)
     obs = Obs(cfg)
+    named = Named(obs, cfg)
     ph = observed_phase(cfg)
     if ph is not None:
         stats.count('class:observed_run')
-    res = run_case(case, observers=(obs,), observed=ph)
+    res = run_case(case, observers=(obs,), observed=ph, hooks=named)
     stats.count('outcome:' + str(res.outcome))
     if res.outcome == 'discard':
         return []
-    out = list(obs.viol)
+    out = list(obs.viol) + list(named.viol)
+    stats.count('mixed_board_probes', named.mixed_probes)
     if res.outcome in ('crash', 'hang', 'runaway'):
         out.append(V(ID, 'engine_crash', exc_key(res.exc),
                      f'{type(res.exc).__name__}: {res.exc}'))
